@@ -184,8 +184,11 @@ def cmd_run(prop: str, tier: str, only=None) -> int:
         "violations": len(violations),
     }
     if not harness_errors or violations:
-        os.makedirs(os.path.join(VERIF_DIR, "evidence"), exist_ok=True)
-        with open(os.path.join(VERIF_DIR, "evidence", f"{prop}.json"), "w") as f:
+        # evidence is only ever written for /repo itself; runs against a scratch tree (sensitivity mutants) keep theirs apart
+        evdir = os.path.join(VERIF_DIR, "evidence") if os.path.realpath(env.REPO) == "/repo" else os.path.join(
+            VERIF_DIR, ".work", "evidence-scratch")
+        os.makedirs(evdir, exist_ok=True)
+        with open(os.path.join(evdir, f"{prop}.json"), "w") as f:
             json.dump(evidence, f, indent=1)
 
     for ln in lines:
